@@ -164,6 +164,9 @@ def surface_dict(s, mesh=None, rng=None):
     return d
 
 
+FORCE_COMPLEX = False  # set by the derivative checks: Problem.setup(force_alloc_complex=True)
+
+
 FLOW0 = {"v": 60.0, "alpha": 4.0, "beta": 0.0, "Mach_number": 0.3, "re": 1.0e6, "rho": 1.1, "cg": [0.3, 0.0, 0.1]}
 
 
@@ -229,7 +232,7 @@ class AeroModel:
         self.compressible = compressible
         if setup:
             kw = {} if mode == "auto" else {"mode": mode}
-            prob.setup(force_alloc_complex=False, **kw)
+            prob.setup(force_alloc_complex=FORCE_COMPLEX, **kw)
 
     def set_flow(self, **kw):
         for k, v in kw.items():
@@ -280,7 +283,7 @@ AS_FLOW0 = {
 class ASModel:
     """AerostructGeometry + one or more AerostructPoint, wired as in the repository's tests/docs."""
 
-    def __init__(self, surfs, flow=None, npoints=1, compressible=False, rng=None, meshes=None, nl="NLBGS_aitken", lin="Direct", mode="auto", atol=1e-8, dicts=None, rotational=False):
+    def __init__(self, surfs, flow=None, npoints=1, compressible=False, rng=None, meshes=None, nl="NLBGS_aitken", lin="Direct", mode="auto", atol=1e-8, dicts=None, rotational=False, lin_maxiter=None):
         from openaerostruct.integration.aerostruct_groups import AerostructGeometry, AerostructPoint
 
         self.surfs = surfs
@@ -363,10 +366,10 @@ class ASModel:
         self.prob = prob
         self._nl, self._lin, self._atol = nl, lin, atol
         kw = {} if mode == "auto" else {"mode": mode}
-        prob.setup(**kw)
+        prob.setup(force_alloc_complex=FORCE_COMPLEX, **kw)
         for pn in self.points:
             coupled = getattr(getattr(prob.model, pn), "coupled")
-            configure_solvers(coupled, nl, lin, atol)
+            configure_solvers(coupled, nl, lin, atol, lin_maxiter)
         prob.final_setup()
 
     def run(self):
@@ -377,7 +380,7 @@ class ASModel:
         return np.array(self.prob.get_val(path))
 
 
-def configure_solvers(coupled, nl="NLBGS_aitken", lin="Direct", atol=1e-8):
+def configure_solvers(coupled, nl="NLBGS_aitken", lin="Direct", atol=1e-8, lin_maxiter=None):
     if nl.startswith("NLBGS"):
         coupled.nonlinear_solver = om.NonlinearBlockGS(use_aitken=(nl == "NLBGS_aitken"))
         coupled.nonlinear_solver.options["maxiter"] = 300
@@ -392,9 +395,9 @@ def configure_solvers(coupled, nl="NLBGS_aitken", lin="Direct", atol=1e-8):
     if lin == "Direct":
         coupled.linear_solver = om.DirectSolver(assemble_jac=True)
     elif lin == "LBGS":
-        coupled.linear_solver = om.LinearBlockGS(maxiter=500, atol=1e-14, rtol=1e-14, iprint=-1, use_aitken=True)
+        coupled.linear_solver = om.LinearBlockGS(maxiter=lin_maxiter or 1000, atol=1e-30, rtol=1e-14, iprint=-1, use_aitken=True, err_on_non_converge=lin_maxiter is None)
     elif lin == "Krylov":
-        coupled.linear_solver = om.ScipyKrylov(maxiter=500, atol=1e-14, rtol=1e-14, iprint=-1)
+        coupled.linear_solver = om.ScipyKrylov(maxiter=lin_maxiter or 2000, atol=1e-30, rtol=1e-14, iprint=-1, restart=100, err_on_non_converge=lin_maxiter is None)
         coupled.linear_solver.precon = om.LinearRunOnce(iprint=-1)
 
 
@@ -419,7 +422,7 @@ class StructModel:
         self.prob = prob
         self.name = self.d["name"]
         kw = {} if mode == "auto" else {"mode": mode}
-        prob.setup(**kw)
+        prob.setup(force_alloc_complex=FORCE_COMPLEX, **kw)
 
     def run(self):
         self.prob.run_model()
